@@ -48,6 +48,29 @@ struct PackedMatrixBase {
 }
 
 impl PackedMatrixBase {
+    /// Packed form of a matrix with a zero-sized dimension. It contains no
+    /// data. GEMM never requests a block from such a matrix, as it handles
+    /// empty outputs and a zero-sized K dimension before any blocks are used.
+    fn empty(
+        kernel_name: &'static str,
+        panel_size: usize,
+        nm_size: usize,
+        depth_size: usize,
+        depth_block: usize,
+    ) -> Self {
+        PackedMatrixBase {
+            data: PackingBuffer::new(),
+            panel_size,
+            depth_block,
+            depth_block_stride: 0,
+            panel_stride: 0,
+            tail_panel_stride: 0,
+            nm_size,
+            depth_size,
+            kernel_name,
+        }
+    }
+
     /// Retrieve a block from the packed matrix as a `(data, panel_stride)` tuple.
     ///
     /// `nm_range` is the range from the M or N dimensions and `depth_block_idx`
@@ -176,6 +199,16 @@ pub fn prepack_a<A: Alloc, LhsT, RhsT, OutT>(
 ) -> PackedAMatrix<LhsT> {
     let depth_block = depth_block_size::<RhsT>(a.cols(), None);
 
+    // A matrix with no rows or no columns has nothing to pack. The general
+    // code below would divide by a zero depth block size or chunk the buffer
+    // by a zero block size.
+    if a.rows() == 0 || a.cols() == 0 {
+        return PackedAMatrix {
+            base: PackedMatrixBase::empty(kernel.name(), kernel.mr(), a.rows(), a.cols(), depth_block),
+            _marker: PhantomData,
+        };
+    }
+
     let layout = kernel.packed_a_layout(a, a.rows(), depth_block, None);
     let tail_layout = if !a.cols().is_multiple_of(depth_block) {
         Some(kernel.packed_a_layout(a, a.rows(), a.cols() % depth_block, None))
@@ -231,6 +264,14 @@ pub fn prepack_b<A: Alloc, LhsT, RhsT, OutT>(
     b: Matrix<RhsT>,
 ) -> PackedBMatrix<RhsT> {
     let depth_block = depth_block_size::<RhsT>(b.rows(), None);
+
+    // See `prepack_a`.
+    if b.rows() == 0 || b.cols() == 0 {
+        return PackedBMatrix {
+            base: PackedMatrixBase::empty(kernel.name(), kernel.nr(), b.cols(), b.rows(), depth_block),
+            _marker: PhantomData,
+        };
+    }
 
     let layout = kernel.packed_b_layout(depth_block, b.cols(), None);
     let tail_layout = if !b.rows().is_multiple_of(depth_block) {
